@@ -82,6 +82,10 @@ connect_mx(struct ips *mx, const struct in6_addr *outip4, const struct in6_addr 
 				/* try next MX */
 				connection_died();
 				continue;
+			case ETIMEDOUT:
+				/* no greeting in time: netget() already logged it, try next MX */
+				quitmsg_if_net(s);
+				continue;
 			case EINVAL:
 				{
 				const char *dropmsg[] = { "invalid greeting from ", rhost, NULL };
